@@ -107,6 +107,17 @@ def run(cx):
             break
 
 
+def dec_minlen(cx, fn):
+    # the length guard must not reject valid short ciphertexts: compressed C1 (33) + C3 (32) + 1 byte of C2 = 66
+    from .. import rules_l as L
+    from ..reviewed import R as REVIEWED
+    from ..prov import E
+    fa = L.FnAnalysis(L.Analyzer(cx.F, reviewed=REVIEWED), fn)
+    sinks = G.ok_sinks(fn)
+    lo = min(fa.length(E('param', 'ciphertext', ty='&[u8]'), s_)[0] for s_ in sinks) if sinks else None
+    cx.add('L-DEC-MINLEN', 'decrypt', lo is not None and lo <= 66, 'the smallest ciphertext length that can reach Ok is %s; the smallest valid ciphertext (compressed C1, one byte of C2) has 66 bytes' % lo, fn.loc())
+
+
 _run0 = run
 
 
@@ -121,15 +132,7 @@ def run(cx):
     if len(kd) == 1:
         t = cn.c(norm(P.local(fn.blocks[kd[0]]['term']['dest']['l'], fn.blocks[kd[0]]['term']['target'], 0)))
         zero_check(cx, fn, P, cn, 'decrypt', t)
-        errs = G.err_sinks(fn)
-        # the length guard must not reject valid short ciphertexts: compressed C1 (33) + C3 (32) + 1 byte of C2 = 66
-        from .. import rules_l as L
-        from ..reviewed import R as REVIEWED
-        fa = L.FnAnalysis(L.Analyzer(cx.F, reviewed=REVIEWED), fn)
-        from ..prov import E
-        sinks = G.ok_sinks(fn)
-        lo = min(fa.length(E('param', 'ciphertext', ty='&[u8]'), s_)[0] for s_ in sinks) if sinks else None
-        cx.add('L-DEC-MINLEN', 'decrypt', lo is not None and lo <= 66, 'the smallest ciphertext length that can reach Ok is %s; the smallest valid ciphertext (compressed C1, one byte of C2) has 66 bytes' % lo, fn.loc())
+        dec_minlen(cx, fn)
 
 
 _run1 = run
